@@ -18,7 +18,8 @@ def run_bounded(run, pid, module=None):
         run.bounded.append(b)
 
 
-LEAN_CHECKED = ["reach_induction", "reach_trans", "reach_sym", "reach_common", "reach_mono", "psum_monotone", "psum_congruence", "count_lemma"]
+LEAN_CHECKED = ["reach_induction", "reach_trans", "reach_sym", "reach_common", "reach_mono", "psum_monotone", "psum_congruence", "count_lemma", "lattice_connected_lemma"]
+LEAN_FILES = ["Lemmas.lean", "Lattice.lean"]
 
 
 def run_lean(run):
@@ -38,13 +39,19 @@ def run_lean(run):
         run.notes.append("lean not on PATH: lemmas not machine-checked in this run")
         return
     t0 = time.time()
-    try:
-        p = subprocess.run([lean, os.path.join(VERIF, "lemmas", "Lemmas.lean")], capture_output=True, text=True, timeout=1500)
-    except subprocess.TimeoutExpired:
-        run.notes.append("lean timed out: lemmas not machine-checked in this run")
-        return
-    if p.returncode != 0 or "error" in (p.stdout + p.stderr):
-        run.crashes.append("Lean rejected lemmas/Lemmas.lean: " + (p.stdout + p.stderr)[:600])
+    out = ""
+    bad = False
+    for fname in LEAN_FILES:
+        try:
+            p = subprocess.run([lean, os.path.join(VERIF, "lemmas", fname)], capture_output=True, text=True, timeout=1500)
+        except subprocess.TimeoutExpired:
+            run.notes.append(f"lean timed out on {fname}: lemmas not machine-checked in this run")
+            return
+        if p.returncode != 0 or "error" in (p.stdout + p.stderr):
+            bad = True
+            out += f"[{fname}] " + (p.stdout + p.stderr)[:400]
+    if bad:
+        run.crashes.append("Lean rejected the lemma files: " + out)
     else:
-        run.notes.append(f"Lean 4 + Mathlib accepted lemmas/Lemmas.lean ({', '.join(LEAN_CHECKED)}) in {time.time() - t0:.0f}s")
+        run.notes.append(f"Lean 4 + Mathlib accepted lemmas/{' and lemmas/'.join(LEAN_FILES)} ({', '.join(LEAN_CHECKED)}) in {time.time() - t0:.0f}s")
     run.lean_checked = list(LEAN_CHECKED) if not run.crashes else []
